@@ -282,7 +282,7 @@ def gen_case(rnd, kind):
             prog = apm.Program([apm.SrcFile(f.name, left_stmts + tail_l)], aux_l, {}, base.charset)
             right = apm.Program([apm.SrcFile(f.name, right_stmts + tail_r)], aux_r, {}, base.charset)
     lt, rt = refcheck.render_all(prog), refcheck.render_all(right)
-    return {"kind": kind, "left": apm.to_json(prog), "right": apm.to_json(right),
+    return {"kind": kind, "caseflip": (rnd.randrange(1, 1 << 30) if kind == "link" and rnd.random() < 0.5 else 0), "left": apm.to_json(prog), "right": apm.to_json(right),
             "left_text_preview": lt[prog.files[0].name].splitlines()[:10], "right_text_preview": rt[right.files[0].name].splitlines()[:10]}
 
 
@@ -300,8 +300,13 @@ def run_case(case, cnt=None, root=None):
     out = []
     try:
         left, right = apm.from_json(case["left"]), apm.from_json(case["right"])
-        ol, tl = meta.assemble_prog(left, root)
-        orr, tr = meta.assemble_prog(right, root)
+        sl = sr = apm.PLAIN
+        if case.get("caseflip"):
+            # names are case-insensitive within a file and across files alike: every occurrence in a letter case of its own
+            sl = apm.Style(random.Random(case["caseflip"]), case=0.5, radix=0.0, brackets=0.0, ws=0.0)
+            sr = apm.Style(random.Random(case["caseflip"] + 1), case=0.5, radix=0.0, brackets=0.0, ws=0.0)
+        ol, tl = meta.assemble_prog(left, root, sl)
+        orr, tr = meta.assemble_prog(right, root, sr)
         differs = tl != tr
         if "stall" in (ol.cls, orr.cls):
             return (out, differs) if not own else out
